@@ -343,10 +343,12 @@ class ExprMixin:
             if s[0] == "Map":
                 k = self.coerce(k, s[1], "subscript")
                 e = T(("Opt", s[2]), f"(select {a.s} {k.s})")
-                dd = getattr(self.m, "defaultdicts", {})
-                if not self.spec_mode and isinstance(n.value, ast.Attribute) and n.value.attr in dd:
+                dd = dict(getattr(self.m, "defaultdicts", {}))
+                dd.update(self.cur_contract.get("defaultdicts", {}))
+                ddname = n.value.attr if isinstance(n.value, ast.Attribute) else (n.value.id if isinstance(n.value, ast.Name) else None)
+                if not self.spec_mode and ddname in dd:
                     # defaultdict: reading a missing key inserts the default and returns it
-                    dflt = T(s[2], dd[n.value.attr])
+                    dflt = T(s[2], dd[ddname])
                     newm = T(s, f"(ite {is_some(e).s} {a.s} (store {a.s} {k.s} {some(self.ctx, dflt).s}))")
                     self.store_back(n.value, newm, st)
                     return T(s[2], f"(ite {is_some(e).s} {unopt(e).s} {dflt.s})")
@@ -537,6 +539,15 @@ class ExprMixin:
             r = self.opaque("dc", ms)
             st.pc.append(f"(forall ({qdecl}) (= (select {r.s} {kk.s}) (ite {guard} {some(c, vv).s} {none_of(c, vv.sort).s})))")
             return r
+        if isinstance(n, ast.DictComp) and isinstance(kk, T) and isinstance(vv, T) and not any(q in vv.s for q, _ in qvars):
+            # {key(x): constant for x in xs}: key present iff some element maps to it
+            ms = ("Map", kk.sort, vv.sort)
+            r = self.opaque("dc", ms)
+            y = "|q_y|"
+            ex = f"(exists ({qdecl}) (and {guard} (= {kk.s} {y})))"
+            st.pc.append(f"(forall (({y} {sort_smt(kk.sort)})) (=> {ex} (= (select {r.s} {y}) {some(c, vv).s})))")
+            st.pc.append(f"(forall (({y} {sort_smt(kk.sort)})) (=> (not {ex}) (= (select {r.s} {y}) {none_of(c, vv.sort).s})))")
+            return r
         if isinstance(n, ast.ListComp) and isinstance(el, T):
             # filtered / unordered source: membership-only summary (order and multiplicity not tracked)
             r = self.opaque("lc", ("Seq", el.sort))
@@ -571,6 +582,8 @@ class ExprMixin:
                 return "map", binder
             return None, None
         v = self.ev(it, st, old)
+        if "iter" in self.m.hooks and isinstance(v, T):
+            v = self.m.hooks["iter"](self, v, st) or v
         if isinstance(v, T) and isinstance(v.sort, tuple):
             if v.sort[0] == "Map" and isinstance(target, ast.Name):
                 def binder(tag, m=v):
